@@ -205,12 +205,18 @@ template <class Q> struct has_mathfn<Q, std::void_t<decltype(std::sqrt(std::decl
 template <class Ad> void mathfn(const char* name, uint64_t seed, int n) {
   using Q = typename Ad::Q; using T = typename Ad::T;
   if constexpr (Ad::N == 1 && has_mathfn<Q>::value) {
-    std::mt19937_64 g(seed); const char* fn[8] = {"abs", "cbrt", "exp", "log", "log2", "log10", "pow", "sqrt"}; long bad[8] = {0}; long double wit[8] = {0};
+    std::mt19937_64 g(seed); const char* fn[8] = {"abs", "cbrt", "exp", "log", "log2", "log10", "pow", "sqrt"}; long bad[8] = {0}; long double wit[8] = {0}; long bad4[4] = {0}; long double wit4[4] = {0};
     for (int t = 0; t < n; t++) { T m = (T)(1.0L + (long double)(g() >> 11) / (long double)(1ULL << 53)); T x = std::ldexp(m, (int)(g() % 12) - 6); T sx = (g() & 1) ? x : -x; T e = (T)((int)(g() % 7) - 3) + (T)0.5;
       T cx[1] = {x}, cs[1] = {sx}; Q qx = Ad::make(cx), qs = Ad::make(cs); T vx = qx.Value(), vs = qs.Value();
       T got[8] = {std::abs(qs), std::cbrt(qs), std::exp(qs), std::log(qx), std::log2(qx), std::log10(qx), std::pow(qx, e), std::sqrt(qx)};
       T want[8] = {std::abs(vs), std::cbrt(vs), std::exp(vs), std::log(vx), std::log2(vx), std::log10(vx), std::pow(vx, e), std::sqrt(vx)};
-      for (int k = 0; k < 8; k++) if (!biteq(got[k], want[k])) { if (!bad[k]) wit[k] = (long double)sx; bad[k]++; } }
+      for (int k = 0; k < 8; k++) if (!biteq(got[k], want[k])) { if (!bad[k]) wit[k] = (long double)sx; bad[k]++; }
+      // pow with an exponent of ANOTHER arithmetic type (not representable in narrower types): exactly std::pow(stored value, exponent) converted to T
+      { long double el = (long double)((int)(g() % 9) - 4) + 0.1L * (long double)(1 + g() % 9) + std::ldexp((long double)(g() & 1023), -62); float ef = (float)el; double ed = (double)el; int ei = (int)(g() % 7) - 3;
+        T g4[4] = {std::pow(qx, ef), std::pow(qx, ed), std::pow(qx, el), std::pow(qx, ei)}; T w4[4] = {(T)std::pow(vx, ef), (T)std::pow(vx, ed), (T)std::pow(vx, el), (T)std::pow(vx, ei)};
+        for (int k = 0; k < 4; k++) if (!biteq(g4[k], w4[k])) { if (!bad4[k]) wit4[k] = (long double)x; bad4[k]++; } } }
+    { const char* f4[4] = {"pow_float_exponent", "pow_double_exponent", "pow_long_double_exponent", "pow_int_exponent"};
+      for (int k = 0; k < 4; k++) printf("{\"e\":\"MathFn\",\"type\":\"%s\",\"num\":\"%s\",\"fn\":\"%s\",\"n\":%d,\"bad\":%ld,\"witness\":\"%La\"}\n", name, NumName<T>::c, f4[k], n, bad4[k], wit4[k]); }
     for (int k = 0; k < 8; k++) printf("{\"e\":\"MathFn\",\"type\":\"%s\",\"num\":\"%s\",\"fn\":\"%s\",\"n\":%d,\"bad\":%ld,\"witness\":\"%La\"}\n", name, NumName<T>::c, fn[k], n, bad[k], wit[k]);
   }
 }
